@@ -336,9 +336,11 @@ func lockstepRun(r *prng.R, s *out.Sink, inst int) bool {
 	tpeers := peers[:k]
 	target := append([]uint16{self}, tpeers...)
 	sort.Slice(target, func(i, j int) bool { return target[i] < target[j] })
+	spoke := map[uint16]bool{} // members that sent anything on the topic
 	deliver := func(kind uint8, from uint16, view []uint16) {
 		msg := discovery.VerifEncodeTagAndMembershipList(kind, string(discovery.VerifPRF(topic, from)), view)
 		sent = nil
+		spoke[from] = true
 		m.HandleMessage(from, msg)
 		ans := "-"
 		if len(sent) > 0 {
@@ -384,6 +386,38 @@ func lockstepRun(r *prng.R, s *out.Sink, inst int) bool {
 		s.Count("lock/result/" + res)
 		if p.err == nil && len(contArgs) != 1 || p.err != nil && len(contArgs) != 0 {
 			s.Violate("C07", fmt.Sprintf("Synchronize returned %v after %d continuation calls", p.err, len(contArgs)), strings.Join(hist, "\n"))
+		}
+		// the property itself, on the list the real call completed with (independent of the model)
+		if p.err == nil && len(contArgs) == 1 {
+			l := contArgs[0]
+			bad := ""
+			hasSelf := false
+			for i, x := range l {
+				if i > 0 && l[i-1] >= x {
+					bad = "is not sorted and duplicate-free"
+				}
+				if x == self {
+					hasSelf = true
+				} else if !spoke[x] {
+					bad = fmt.Sprintf("contains %d, which never announced itself on the topic", x)
+				}
+				known := false
+				for _, c := range cfg {
+					known = known || c == x
+				}
+				if !known {
+					bad = fmt.Sprintf("contains %d, which is not a configured member", x)
+				}
+			}
+			if !hasSelf {
+				bad = "does not contain the party itself"
+			}
+			if expected >= 1 && len(l) != expected {
+				bad = fmt.Sprintf("has %d members where exactly %d were expected", len(l), expected)
+			}
+			if bad != "" {
+				s.Violate("C07", fmt.Sprintf("validity: member %d completed with %v, which %s", self, l, bad), strings.Join(hist, "\n"))
+			}
 		}
 	}
 	phase := "collect" // collect | evaluating | query | done
